@@ -249,6 +249,14 @@ func cmdSessions(args []string) {
 		r0 := rand.New(rand.NewSource(p.seed*7919 + 13))
 		for _, c := range cases {
 			Valuate(c, r0, true)
+			// some actions abandon the parse after assigning $$; some rules rely on the zero default of $$
+			for i := range c.Rules {
+				if c.Rules[i].Act.Kind == "int" && r0.Intn(3) == 0 {
+					c.Rules[i].Act.Abort = true
+				} else if c.Rules[i].Act.Kind == "int" && r0.Intn(4) == 0 {
+					c.Rules[i].Act = Act{Kind: "log"}
+				}
+			}
 		}
 	}
 	var kept []*Case
